@@ -166,9 +166,9 @@ let make_oracles cfg : oracles =
   let relay = cfg "relay" "none" and ip = cfg "ip" "v4" in
   let plan = List.filter (fun x -> x <> "") (String.split_on_char ',' (cfg "qq" "")) in
   let remoteip = if ip = "v4" then "::ffff:192.0.2.1" else "2001:db8::1" in
-  (* an IPv6 literal of the local address is never recognised: addrsyntax lower-cases the address and addrparse
-     then compares the tag with "IPv6:" case-sensitively *)
-  local_literals := (if ip = "v4" then ["[192.0.2." ^ cfg "lip" "2" ^ "]"] else []);
+  (* the literal of the local address, as text, lower case (addrsyntax lower-cases the address; since fix bb812a0 the
+     IPv6 tag is compared case-insensitively, so the IPv6 literal is recognised too - textual form of TCP6LOCALIP only) *)
+  local_literals := (if ip = "v4" then ["[192.0.2." ^ cfg "lip" "2" ^ "]"] else ["[ipv6:2001:db8::2]"]);
   { o_helo = o_helo; o_addr = o_addr; o_ext = o_ext;
     o_relay = (match relay with "listed" -> Zpos XH | "none" | "unlisted" -> Z0 | _ -> Zneg XH);
     o_mx = (fun a -> let s = str_of_bytes a in
